@@ -644,3 +644,8 @@ def ed_decode_xy(ip, s):
 
 def ed_group(ip):
     return ip.lookup_global("Ed25519Group", ip.repo.modules["ed25519_group"])
+
+
+def no_global_entropy(ip):
+    """no call of os.urandom (process-global entropy) on this path"""
+    return not any(s == -1 for s, _ in ip.ctx.entropy_log)
